@@ -10,7 +10,7 @@ namespace igzc {
 
 // call-size schedule derived from three generated numbers (bounded tape use)
 struct Sched {
-	int mode = 0;      // 0 everything at once, 1 constant size, 2 seeded random sizes in [1, param], 3 boundary-set sizes
+	int mode = 0;      // 0 everything at once, 1 constant size, 2 seeded random sizes in [1, param], 3 boundary-set sizes, 4 param / 20*param / rest
 	uint32_t param = 0;
 	uint64_t seed = 0;
 	uint64_t n = 0;
@@ -21,16 +21,17 @@ struct Sched {
 		case 0: v = remaining_hint; break;
 		case 1: v = param ? param : 1; break;
 		case 2: v = 1 + pbt::mix64(seed + n) % (param ? param : 1); break;
+		case 4: v = n == 0 ? (param ? param : 1) : n == 1 ? 20 * (size_t) (param ? param : 1) : remaining_hint; break; // a small piece, a medium one, then all the rest at once
 		default: v = BS[pbt::mix64(seed + n) % 17]; break;
 		}
 		n++;
 		return v;
 	}
-	std::string text() const { return pbt::fmt("%s/%u", mode == 0 ? "all" : mode == 1 ? "const" : mode == 2 ? "rand" : "boundary", param); }
+	std::string text() const { return pbt::fmt("%s/%u", mode == 0 ? "all" : mode == 1 ? "const" : mode == 2 ? "rand" : mode == 4 ? "small,medium,rest" : "boundary", param); }
 };
 inline Sched decode_sched(pbt::Tape &t, size_t total, size_t min_chunk_floor) {
 	Sched s;
-	s.mode = (int) t.range(0, 3);
+	s.mode = (int) t.range(0, 4);
 	static const uint32_t SZ[] = {1, 2, 7, 8, 9, 15, 16, 17, 31, 32, 33, 64, 255, 256, 257, 328, 329, 1000, 4096, 32768, 65536};
 	s.param = SZ[t.range(0, 20)];
 	if (s.mode == 3 && min_chunk_floor > 8) s.mode = 2;
@@ -110,6 +111,7 @@ struct StreamPlan {
 	uint64_t flush_seed = 0;
 	bool late_eos = false;   // announce end_of_stream on a later call with no new input
 	bool refill_before_drain = false; // hand over new input while earlier input is still unconsumed
+	uint32_t reoffer_limit = 0;       // != 0: after a call that filled its output chunk, the next call offers only this many bytes of the remaining input (at most 64 times per stream)
 };
 inline StreamPlan decode_plan(pbt::Tape &t, size_t len) {
 	StreamPlan p;
@@ -120,6 +122,7 @@ inline StreamPlan decode_plan(pbt::Tape &t, size_t len) {
 	p.flush_seed = t.bits64();
 	p.late_eos = t.coin();
 	p.refill_before_drain = t.coin();
+	{ uint32_t r = t.raw(); p.reoffer_limit = (r & 3) ? 0 : (uint32_t) "\x01\x02\x03\x08\x09\x40"[(r >> 2) % 6]; }
 	return p;
 }
 
@@ -129,6 +132,8 @@ inline std::string run_stream(igz::Deflater &d, const std::vector<uint8_t> &data
 	int noprog = 0;
 	std::vector<uint8_t> snap;
 	bool eos_sent = false;
+	int reoffers = 0;
+	bool prev_full = false;
 	while (!d.finished()) {
 		size_t add = 0;
 		if (pos < len && (d.pending.empty() || p.refill_before_drain)) {
@@ -140,12 +145,15 @@ inline std::string run_stream(igz::Deflater &d, const std::vector<uint8_t> &data
 		size_t cap = p.out.next(len + 1024);
 		if (p.out.mode == 0) cap = len + len / 8 + 1024;
 		int flush = p.flush_mode < 3 ? p.flush_mode : (int) (pbt::mix64(p.flush_seed + d.calls) % 3);
+		// a caller that, whenever a call stopped because the output chunk was full, hands over fresh output space but only the next few bytes of its input
+		if (p.reoffer_limit && prev_full && d.pending.size() + add > p.reoffer_limit && reoffers < 64 && !d.eos_announced) { d.offer_limit = p.reoffer_limit; reoffers++; eos = false; }
 		if (eos) eos_sent = true;
 		igz::CallInfo ci = d.call(data.data() + pos, add, cap, flush, eos);
 		pos += add;
 		if (ci.faulted) { key_suffix = "fault"; return "isal_deflate: " + ci.problem; }
 		if (!ci.problem.empty()) { key_suffix = "counters"; return "isal_deflate call " + std::to_string(d.calls) + ": " + ci.problem; }
 		if (ci.rc != COMP_OK) { key_suffix = "rc"; return pbt::fmt("isal_deflate returned %d on call %llu (level %d flush %d)", ci.rc, (unsigned long long) d.calls, d.o.level, flush); }
+		prev_full = cap > 0 && ci.produced == cap;
 		// progress: a call that had input and output space (or end-of-stream and output space) and changed nothing at all twice in a row is a provable livelock
 		bool could = (d.pending.size() + ci.consumed > 0 && cap > 0) || (eos && cap > 0);
 		if (could && ci.consumed == 0 && ci.produced == 0 && !d.finished()) {
